@@ -373,3 +373,34 @@ def block_ok(lib, b):
                         and forall(q, 0 <= q < len(as_ref(b, 'ref:Entry')._fields), isstr(as_ref(b, 'ref:Entry')._fields[q]._value) and allocated(as_ref(b, 'ref:Entry')._fields[q])))
             and implies(isinstance(b, String), not isnone(b._parser_metadata) and isstr(as_ref(b, 'ref:String')._value)
                         and not same(b._parser_metadata, lib._strings_by_key) and not same(b._parser_metadata, lib._entries_by_key)))
+
+
+# ---- the other views and the partition clause of C08 ------------------------------------------------------------------
+
+def _view(cls_test, result_kind, doc):
+    return type("_", (), {
+        "__doc__": doc, "sorts": {"self": "ref:Library", "result": result_kind},
+        "ensures": {
+            "C08.view-members": "fresh(result) and forall(t, 0 <= t < len(result), exists(i, 0 <= i < len(self._blocks), same(result[t], self._blocks[i]) and %s))" % cls_test,
+            "C08.view-complete": "forall(i, 0 <= i < len(self._blocks) and %s, exists(t, 0 <= t < len(result), same(result[t], self._blocks[i])))" % cls_test,
+        },
+        "raises": {}, "modifies": []})
+
+
+contract(L + "failed_blocks")(_view("isinstance(self._blocks[i], ParsingFailedBlock)", "list:ref:ParsingFailedBlock",
+                                    "the failed blocks (ParsingFailedBlock and its subclasses) of `blocks`, in that order (a fresh list)"))
+contract(L + "preambles")(_view("isinstance(self._blocks[i], Preamble)", "list:ref:Preamble", "the Preamble blocks of `blocks`, in that order"))
+contract(L + "comments")(_view("(isinstance(self._blocks[i], ExplicitComment) or isinstance(self._blocks[i], ImplicitComment))", "list:ref:Block",
+                               "the explicit and implicit comment blocks of `blocks`, in that order"))
+
+
+from pyvc.api import lemma  # noqa: E402
+
+lemma("block-kinds-partition",
+      doc="every block of a shipped class falls under exactly one of the five views: Entry, String, Preamble, comment "
+          "(explicit or implicit), failed block (ParsingFailedBlock and its subclasses) -- the classes are pairwise disjoint "
+          "and together cover every concrete class below Block except the bare base class",
+      vars={"b": "ref:Block"}, requires=["allocated(b)", "not cls_is(b, 'Block')"],
+      ensures="((1 if isinstance(b, Entry) else 0) + (1 if isinstance(b, String) else 0) + (1 if isinstance(b, Preamble) else 0) "
+              "+ (1 if (isinstance(b, ExplicitComment) or isinstance(b, ImplicitComment)) else 0) + (1 if isinstance(b, ParsingFailedBlock) else 0)) == 1",
+      props=("C08",))
